@@ -110,6 +110,7 @@ def execute(world, opsource, fault, want_lines=False, trace_all=False):
         last_op = None
         last_idx = -1
         op_of_record = []  # record index -> (op index, op)
+        limit_of_record = []  # record index -> the worklist's max_volume when the record was emitted
         try:
             with sess.wl:
                 i = 0
@@ -132,8 +133,11 @@ def execute(world, opsource, fault, want_lines=False, trace_all=False):
                         res.fired_at = out.fired_at
                     # ---- oracle after every operation: the records accumulated so far
                     recs = sess.records()
+                    if op["op"] == "set_wl_max" and out.ok:
+                        max_volume = dec(op["value"])  # "the worklist's max_volume" is the attribute's current value
                     for j in range(seen, len(recs)):
                         op_of_record.append((i, op))
+                        limit_of_record.append(max_volume)
                         d = check_step_size(recs[j], max_volume, robot)
                         if d:
                             viol("C03.step_size", i, op, out.exc_type, d, {"record": recs[j]})
@@ -161,7 +165,7 @@ def execute(world, opsource, fault, want_lines=False, trace_all=False):
                         res.root = (i, op)
                     # ---- auto_split off: an oversized transfer step must be refused with InvalidOperationError
                     if op["op"] == "transfer" and not world["worklist"]["auto_split"] and not out.injected:
-                        d = judge_oversize(world, op, sess, out, pre_vols)
+                        d = judge_oversize(world, op, sess, out, pre_vols, max_volume)
                         if d:
                             viol("C03.auto_split_off", i, op, out.exc_type, d)
                     if not out.ok:
@@ -201,7 +205,7 @@ def execute(world, opsource, fault, want_lines=False, trace_all=False):
             robot2 = make_robot(world)
             for j, rec in enumerate(lines):
                 oi, oop = op_of_record[j] if j < len(op_of_record) else (last_idx, last_op)
-                d = check_step_size(rec, max_volume, robot2)
+                d = check_step_size(rec, limit_of_record[j] if j < len(limit_of_record) else max_volume, robot2)
                 if d:
                     viol("C03.step_size", oi, oop, res.exc_type, "file: " + d, {"record": rec})
                 nex = len(robot2.excursions)
@@ -261,14 +265,14 @@ def diverged(robot, sess):
     return False
 
 
-def judge_oversize(world, op, sess, out, pre_vols):
+def judge_oversize(world, op, sess, out, pre_vols, max_volume):
     """auto_split off: a transfer that requests a step > max_volume must not return normally, and when
     no volume limit can be the reason it must be InvalidOperationError."""
     try:
         pl = opsmod.plan(op, sess.geos)
     except opsmod.PlanInvalid:
         return None
-    mv = frac(dec(world["worklist"]["max_volume"]))
+    mv = frac(max_volume)
     over = [t for t in pl["triples"] if frac(t[2]) > mv]
     if not over:
         return None
@@ -393,6 +397,8 @@ class Program:
                 return self.gen.gen_misc(), False
             if r < 0.24:
                 return self.lowlevel(sess), False
+            if r < 0.27:
+                return self.set_wl_max(), False
             return self.liquid_op(sess, "ok"), False
         if i == self.n_prefix:
             fk = self.fault_kind
@@ -402,6 +408,19 @@ class Program:
                 return self.gen.gen_invalid(sess), True
             return self.liquid_op(sess, fk), True
         return None
+
+    def set_wl_max(self):
+        """`wl.max_volume = ...` in mid-script (the user mounts other tips): from here on the new value is the
+        worklist's max_volume - for the splitter and for the per-step guard alike."""
+        from ..sim.geom import enc
+        rng, g = self.rng, self.gen
+        cur = g.wl_max
+        new = rng.choice([cur / 2, cur / 5, cur * 2, 200, 50, 1000, 10])
+        new = float(int(new)) if new >= 1 else cur
+        if float(new) == float(cur):
+            new = float(max(1, int(cur / 2)))
+        g.wl_max = float(new)
+        return {"op": "set_wl_max", "value": enc(int(new) if rng.random() < 0.7 else float(new))}
 
     def lowlevel(self, sess):
         rng = self.rng
